@@ -194,9 +194,13 @@ fn cli_files(max_lines: usize) -> Vec<String> {
                 for t in terms {
                     nxt.push(format!("{}{}{}", c, b, t));
                 }
-                // last line without terminator
+                // last line without terminator, also one that ends with a lone carriage return
+                // (which is then part of the text, not a terminator)
                 if !b.is_empty() {
                     all.push(format!("{}{}", c, b));
+                    if b != " " {
+                        all.push(format!("{}{}\r", c, b));
+                    }
                 }
             }
         }
